@@ -1070,6 +1070,11 @@ buildCommand(BuildContext& context, ninja::Command* command) {
       if (value.isSuccessfulCommand()) {
         hasPriorResult = true;
         priorCommandHash = value.getCommandHash();
+      } else if (value.isFailedCommand()) {
+        // Retry a command that failed last time even if it left its outputs
+        // behind (matters for generator commands, which skip the command hash
+        // test below).
+        canUpdateIfNewer = false;
       }
     }
 
